@@ -138,6 +138,13 @@ class C13(Prop):
         if len(ms) != 1:
             raise X.TieBroken("guard:reframe room test", "cannot locate `if (to + N >= MAX_TEXT - M) return;` of reframe_single_char_input (matched %r)" % (ms,))
         out.append("/-- C: reframe_single_char_input `if (to + N >= MAX_TEXT - M) return;` -/\ndef reframeNeed : Nat := %s\ndef reframeReserve : Nat := %s" % ms[0])
+        wsrc = open(os.path.join(E.REPO, "lib/async/console_worker.c"), errors="replace").read()
+        ms = re.findall(r"read\(STDIN_FILENO, line_buffer, CONSOLE_MAX_LINE - (\d+)\)", wsrc)
+        if len(ms) != 1 or wsrc.count("char line_buffer[CONSOLE_MAX_LINE];") < 1 or wsrc.count("line_buffer[bytes_read] = '\\0';") != 1 \
+                or wsrc.count("async_queue_enqueue(cctx->line_queue, line_buffer, bytes_read + 1)") != 1 \
+                or src.count("async_queue_dequeue(g_console_queue, line_buffer, sizeof(line_buffer), &line_length)") != 1:
+            raise X.TieBroken("guard:console worker read", "cannot locate the read / terminator / enqueue / dequeue statements of the console path (read sizes matched: %r)" % (ms,))
+        out.append("/-- C: lib/async/console_worker.c `read (STDIN_FILENO, line_buffer, CONSOLE_MAX_LINE - N)` -/\ndef consoleReadReserve : Nat := %s" % ms[0])
         need("console guard", r"if \(ip->text_end \+ len >= (MAX_TEXT)(?: && !cmd_in_buf \(ip\))?\)", str, count=2)
         # statement order (T4): the PORT_ASCII line loop and add_console_line's checks, as the order of named
         # statements in the source text; the model states the order it implements and a bridging lemma compares
@@ -212,7 +219,7 @@ class C13(Prop):
 
     def cc_table(self, ctx):
         try:
-            self.exe = E.compile_harness("c13", [os.path.join(E.VERIF, "harness/c13/c13.c")], exclude_objs=("comm.c.o",))
+            self.exe = E.compile_harness("c13", [os.path.join(E.VERIF, "harness/c13/c13.c"), os.path.join(E.VERIF, "harness/c13/c13w.c")], exclude_objs=("comm.c.o",))
         except E.BuildError as e:
             raise X.TieBroken("cc-table", "the harness does not build against the source: %s" % str(e)[-400:])
         rd = os.path.join(ctx.rundir, "cctable")
@@ -348,7 +355,7 @@ def ccTable : List CcCfg := [
 
     def prepare(self, ctx):
         if not getattr(self, "exe", None):      # normally built by gen_extra (cc_table)
-            self.exe = E.compile_harness("c13", [os.path.join(E.VERIF, "harness/c13/c13.c")], exclude_objs=("comm.c.o",))
+            self.exe = E.compile_harness("c13", [os.path.join(E.VERIF, "harness/c13/c13.c"), os.path.join(E.VERIF, "harness/c13/c13w.c")], exclude_objs=("comm.c.o",))
         self.conf = E.make_mudlib(ctx.rundir)
 
     def run_impl(self, ctx, cases):
@@ -550,6 +557,13 @@ def ccTable : List CcCfg := [
         add("console-full-partial", "console", [b"a\n" + b"p" * 2045, b"\n", b"x\n"], console=True, inter="each")
         add("console-stall-2047", "console", [b"p" * 2047, b"\n", b"look\n", b"q" * 2047, b"r" * 2048, b"say hi\n"], console=True, inter="each")
         add("console-nofit-with-command-pending", "console", [b"a\n" + b"p" * 2040, b"zzzzzzzz\n", b"x\n"], console=True, inter="end")
+        # console input through the real worker procedure and process_io (read size CONSOLE_MAX_LINE-1, terminator, queue)
+        def wp(name, blobs, tail=("drain",)):
+            B.append(E.Case("b-wpipe-" + name, ["port console"] + ["wpipe " + hx(x) for x in blobs] + list(tail), {"origin": "boundary", "port": "console"}))
+        wp("lines", [b"look\nsay hi\r\n", b"par", b"tial\n", b""])
+        for n in (2046, 2047, 2048, 4093, 4094, 4095, 4096, 4097, 8190, 9000):
+            wp("long-%d" % n, [b"w" * n + b"\nok\n", b"next\n"])
+        wp("exact-4095-then-line", [b"a\n" + b"z" * 4093, b"\nlast\n"])
         # binary
         add("binary-verbatim", "binary", [bytes(range(256)), b"\xff\xfa\x18\xff\xf0\r\n\0", b"z" * 3000])
         # single character mode (memory safety only)
@@ -639,9 +653,14 @@ def ccTable : List CcCfg := [
                 if rng.chance(1, 5):
                     s += b"w" * rng.choice([2040, 2046, 2047, 2048]) + b"\n"
                 s += b"\n"
+                if rng.chance(1, 6):
+                    s = b"v" * rng.choice([4090, 4095, 4096, 6000]) + b"\n" + s
                 for how in ("one", "few", "many"):
-                    C.append(self.mk_case("%s-%s" % (cid, how), "console", self.segment(rng, s, how), rng,
-                                          rng.choice(["end", "each", "rand"]), console=True))
+                    c = self.mk_case("%s-%s" % (cid, how), "console", self.segment(rng, s, how), rng,
+                                     rng.choice(["end", "each", "rand"]), console=True)
+                    if rng.chance(1, 2):        # the same blobs arrive on the stdin pipe (real worker + process_io)
+                        c.lines = [("wpipe " + l[5:]) if l.startswith("line ") else l for l in c.lines]
+                    C.append(c)
             elif kind == "getchar":
                 # the user object switches modes with get_char() / input_to(); lines typed ahead in single-char mode
                 # are reframed when the mode ends
@@ -681,7 +700,7 @@ def ccTable : List CcCfg := [
         data = b""
         for l in case.lines:
             t = l.split()
-            if len(t) == 2 and t[0] in ("chunk", "send", "line") and t[1] != "-":
+            if len(t) == 2 and t[0] in ("chunk", "send", "line", "wpipe") and t[1] != "-":
                 data += bytes.fromhex(t[1])
         out = []
         for i in range(n):
